@@ -591,3 +591,61 @@ pub fn decode(data: &[u8], buf: usize) -> Option<Case> {
     }
     Some(Case { ops, sink, end_with_flush })
 }
+
+// ---------------------------------------------------------------------------------------------
+// out! / outln! (output_macro.rs): space-separated items, newline for outln!, through the same Writer
+// ---------------------------------------------------------------------------------------------
+
+#[derive(Clone, Debug, Hash, Serialize, Deserialize, PartialEq)]
+pub struct MacroCase {
+    pub a: i64,
+    pub b: u128,
+    pub s: String,
+    pub v: Vec<i32>,
+    pub t: (u8, i16),
+    pub pad: u16,
+}
+
+pub fn run_macros(c: &MacroCase, buf: usize) -> CaseResult {
+    let state = Rc::new(RefCell::new(SinkState::default()));
+    let mut want = String::new();
+    {
+        #[allow(unused_imports)]
+        use rlib_io::*; // the way the library is meant to be used: the helper macros are exported at the crate root
+        let reader = rlib_io::Reader::new(Box::new(&b""[..]));
+        let writer = Writer::new(Box::new(Sink { spec: SinkSpec { kind: 3, param: 5, interrupts: vec![1] }, st: state.clone(), consecutive: 0 }));
+        rlib_io::make_output_macro!(reader, writer);
+        // leave buf - pad bytes pending so that the macro output straddles the buffer boundary (buffered builds)
+        let filler = "#".repeat(buf.saturating_sub(c.pad as usize % 64));
+        out!(filler.as_str());
+        want.push_str(&filler);
+        out!(c.a);
+        want.push_str(&format!("{}", c.a));
+        outln!();
+        want.push('\n');
+        out!(c.a, c.b, c.s);
+        want.push_str(&format!("{} {} {}", c.a, c.b, c.s));
+        outln!(c.v, c.t, c.s.as_str());
+        want.push_str(&format!("{} {} {} {}\n", c.v.iter().map(|x| x.to_string()).collect::<Vec<_>>().join(" "), c.t.0, c.t.1, c.s));
+        outln!(c.b);
+        want.push_str(&format!("{}\n", c.b));
+        let _ = &reader;
+    }
+    let got = state.borrow().log.clone();
+    let d = first_diff(&got, want.as_bytes());
+    vensure!(
+        got == want.as_bytes(),
+        "output-macros",
+        "out!/outln! produced {} bytes, expected {}; first difference at byte {}: got {}, expected {}",
+        got.len(), want.len(), d, preview(&got[d.min(got.len())..(d + 40).min(got.len())]), preview(&want.as_bytes()[d.min(want.len())..(d + 40).min(want.len())])
+    );
+    let mut st = CaseStats::default();
+    st.nontrivial = true;
+    st.label("output-macros");
+    Ok(st)
+}
+
+pub fn macro_case() -> impl Strategy<Value = MacroCase> {
+    (any::<i64>(), prop_oneof![any::<u128>(), Just(10u128.pow(19)), Just(7 * 10u128.pow(19) + 5), Just(u128::MAX)], "[!-~]{1,12}", prop::collection::vec(any::<i32>(), 0..5), (any::<u8>(), any::<i16>()), any::<u16>())
+        .prop_map(|(a, b, s, v, t, pad)| MacroCase { a, b, s, v, t, pad })
+}
